@@ -162,27 +162,54 @@ impl Allocator {
     }
 
     // ---- the representation invariant --------------------------------------------------------
+    pub closed spec fn cap_s(&self) -> nat {
+        if self.heap_limit >= 1 {
+            self.heap_limit as nat
+        } else {
+            1
+        }
+    }
+
+    /// Structural invariant.  The heap clause is the bound the real code maintains: the C13
+    /// cap plus three bytes per atom ever counted -- the slack is known finding F1 (new_substr
+    /// on an inline atom appends without a limit check); `capped()` below is the cap as C13
+    /// states it.
     pub closed spec fn inv(&self) -> bool {
         &&& self.atoms_s() <= MAX_NUM_ATOMS
         &&& self.pairs_s() <= MAX_NUM_PAIRS
         &&& self.heap_limit <= u32::MAX
         &&& self.u8_vec@.len() <= u32::MAX
+        &&& self.heap_s() <= self.cap_s() + 3 * self.atoms_s()
         &&& forall|i: int| 0 <= i < self.atom_vec@.len() ==> (#[trigger] self.atom_vec@[i]).ok(self.u8_vec@.len())
         &&& forall|i: int| 0 <= i < self.pair_vec@.len() ==> #[trigger] self.pair_ok(i)
+        &&& forall|b: [u8; 48]| self.validated_g1_points@.contains(b) ==> valid_g1(#[trigger] b@)
+        &&& forall|b: [u8; 96]| self.validated_g2_points@.contains(b) ==> valid_g2(#[trigger] b@)
     }
 
     /// the C13 heap cap (a fresh allocator already reports one byte, hence max(limit, 1))
     pub closed spec fn capped(&self) -> bool {
-        self.heap_s() <= (if self.heap_limit >= 1 { self.heap_limit as nat } else { 1 })
+        self.heap_s() <= self.cap_s()
     }
 
-    /// view of a failed allocation: nothing observable changed (C13)
-    pub closed spec fn same_view(&self, o: &Allocator) -> bool {
-        &&& self.counts() == o.counts()
+    /// nothing changed (failed allocations, C13): every field has the same abstract value
+    pub closed spec fn same_state(&self, o: &Allocator) -> bool {
+        &&& self.u8_vec@ == o.u8_vec@
+        &&& self.pair_vec@ == o.pair_vec@
+        &&& self.atom_vec@ == o.atom_vec@
         &&& self.heap_limit == o.heap_limit
-        &&& self.atom_vec@.len() == o.atom_vec@.len()
-        &&& self.pair_vec@.len() == o.pair_vec@.len()
-        &&& forall|n: NodePtr| o.valid(n) ==> #[trigger] self.tree(n) == o.tree(n)
+        &&& self.ghost_atoms == o.ghost_atoms
+        &&& self.ghost_pairs == o.ghost_pairs
+        &&& self.ghost_heap == o.ghost_heap
+        &&& self.validated_g1_points@ == o.validated_g1_points@
+        &&& self.validated_g2_points@ == o.validated_g2_points@
+    }
+
+    /// the allocator is `o` cut back to the lengths in cp (restores)
+    pub closed spec fn cut_of(&self, o: &Allocator, cp: &TransparentCheckpoint) -> bool {
+        &&& self.heap_limit == o.heap_limit
+        &&& self.u8_vec@ == o.u8_vec@.take(cp.u8s as int)
+        &&& self.pair_vec@ == o.pair_vec@.take(cp.pairs as int)
+        &&& self.atom_vec@ == o.atom_vec@.take(cp.atoms as int)
     }
 
     /// frame for growing operations (C14): every old node keeps its meaning
@@ -217,6 +244,94 @@ impl Allocator {
     /// node valid in the prefix cut at cp
     pub closed spec fn valid_at(&self, cp: &TransparentCheckpoint, n: NodePtr) -> bool {
         n.tag() == 2 || (n.tag() == 1 && n.idx() < cp.atoms) || (n.tag() == 0 && n.idx() < cp.pairs)
+    }
+}
+
+impl Checkpoint {
+    pub closed spec fn counts(&self) -> Counts {
+        Counts {
+            atoms: self.inner.atoms as nat + self.ghost_atoms as nat,
+            pairs: self.inner.pairs as nat + self.ghost_pairs as nat,
+            heap: self.inner.u8s as nat + self.ghost_heap as nat,
+        }
+    }
+
+    /// a checkpoint that was taken from an allocator satisfying inv() (its counts obey the caps)
+    pub closed spec fn ok_for(&self, a: &Allocator) -> bool {
+        &&& a.consistent(&self.inner)
+        &&& self.counts().atoms <= MAX_NUM_ATOMS
+        &&& self.counts().pairs <= MAX_NUM_PAIRS
+        &&& self.counts().heap <= a.cap_s() + 3 * self.counts().atoms
+    }
+}
+
+pub closed spec fn cp_le(a: &TransparentCheckpoint, b: &TransparentCheckpoint) -> bool {
+    a.u8s <= b.u8s && a.pairs <= b.pairs && a.atoms <= b.atoms
+}
+
+pub proof fn lemma_tree_cut(a: &Allocator, o: &Allocator, cp: &TransparentCheckpoint, n: NodePtr)
+    requires
+        o.inv(),
+        o.consistent(cp),
+        a.cut_of(o, cp),
+        o.valid_at(cp, n),
+    ensures
+        a.valid(n),
+        o.valid(n),
+        a.tree(n) == o.tree(n),
+    decreases n.rank(),
+{
+    if n.tag() == 0 {
+        let i = n.idx() as int;
+        assert(o.pair_ok(i));
+        let p = o.pair_vec@[i];
+        assert(a.pair_vec@[i] == p);
+        lemma_idx_bound(p.first);
+        lemma_idx_bound(p.rest);
+        lemma_tree_cut(a, o, cp, p.first);
+        lemma_tree_cut(a, o, cp, p.rest);
+    } else if n.tag() == 1 {
+        let ab = o.atom_vec@[n.idx() as int];
+        assert(ab.ok(o.u8_vec@.len()));
+        assert(a.atom_vec@[n.idx() as int] == ab);
+        assert(a.u8_vec@.subrange(ab.start as int, ab.end as int) =~= o.u8_vec@.subrange(ab.start as int, ab.end as int));
+    }
+}
+
+pub proof fn lemma_cut_inv(a: &Allocator, o: &Allocator, cp: &TransparentCheckpoint)
+    requires
+        o.inv(),
+        o.consistent(cp),
+        a.cut_of(o, cp),
+        a.validated_g1_points@ == o.validated_g1_points@,
+        a.validated_g2_points@ == o.validated_g2_points@,
+        a.atoms_s() <= MAX_NUM_ATOMS,
+        a.pairs_s() <= MAX_NUM_PAIRS,
+        a.heap_s() <= a.cap_s() + 3 * a.atoms_s(),
+    ensures
+        a.inv(),
+        forall|n: NodePtr| o.valid_at(cp, n) ==> a.valid(n) && #[trigger] a.tree(n) == o.tree(n),
+        forall|c2: &TransparentCheckpoint| cp_le(c2, cp) && #[trigger] o.consistent(c2) ==> a.consistent(c2),
+{
+    assert forall|i: int| 0 <= i < a.atom_vec@.len() implies (#[trigger] a.atom_vec@[i]).ok(a.u8_vec@.len()) by {
+        assert(o.atom_vec@[i].ok(o.u8_vec@.len()));
+    }
+    assert forall|i: int| 0 <= i < a.pair_vec@.len() implies #[trigger] a.pair_ok(i) by {
+        assert(o.pair_ok(i));
+        let p = o.pair_vec@[i];
+        lemma_idx_bound(p.first);
+        lemma_idx_bound(p.rest);
+    }
+    assert forall|n: NodePtr| o.valid_at(cp, n) implies a.valid(n) && #[trigger] a.tree(n) == o.tree(n) by {
+        lemma_tree_cut(a, o, cp, n);
+    }
+    assert forall|c2: &TransparentCheckpoint| cp_le(c2, cp) && #[trigger] o.consistent(c2) implies a.consistent(c2) by {
+        assert forall|i: int| c2.atoms <= i < a.atom_vec@.len() implies ({
+            let ab = #[trigger] a.atom_vec@[i];
+            ab.start < c2.u8s ==> ab.end <= c2.u8s
+        }) by {
+            let ab = o.atom_vec@[i];
+        }
     }
 }
 
